@@ -1,8 +1,8 @@
 (* C05 - Operator arithmetic is a faithful image of matrix arithmetic.
    pauli_products_map comes from QPG.conjtab (regenerated from /repo). *)
-From Coq Require Import ZArith List Bool.
+From Coq Require Import ZArith NArith List Bool.
 From QP Require Import Cx Zw Apply Local Gates.
-From QPM Require Import Pauli CompBasis Operator OperatorExt Expect OperatorAdj SparseExport.
+From QPM Require Import Pauli CompBasis Grouping GF2 Operator OperatorExt Expect OperatorAdj SparseExport TransAmp.
 From QPG Require Import conjtab.
 Import ListNotations.
 
@@ -150,3 +150,24 @@ Example export_example :
   | None => False
   end.
 Proof. vm_compute. repeat split. Qed.
+
+(* transition amplitudes (representation/__init__.py): with pauli_label_to_bsv's masks x, z and phase (-i)^#Y, the sum that
+   transition_amp_comp_basis forms over the terms filed under x = m xor n - parity sign of z & m times coefficient times
+   phase - is the matrix element <m| O |n> of the denoted operator: every register size, every operator whose labels act
+   on distinct qubits of the register, all basis indices; over any coefficient ring with an image in C *)
+Theorem transition_amplitude_is_the_matrix_element :
+  forall (K : Type) (k0 k1 kmi : K) (kopp : K -> K) (kadd kmul : K -> K -> K) (phi : K -> C),
+  phi k0 = C0 -> phi k1 = C1 -> phi kmi = Copp Ci -> (forall x, phi (kopp x) = Copp (phi x)) ->
+  (forall x y, phi (kadd x y) = Cadd (phi x) (phi y)) -> (forall x y, phi (kmul x y) = Cmul (phi x) (phi y)) ->
+  forall n (o : list (label * K)) (m k : N),
+  Forall (fun lc => in_reg n (fst lc)) o -> fits n m -> fits n k ->
+  osem K phi o (ket n k) (bitN m) = phi (tamp K k0 k1 kmi kopp kadd kmul o m k).
+Proof. intros K k0 k1 kmi kopp kadd kmul phi H0 H1 Hmi Ho Ha Hm. apply operator_transition_amp; assumption. Qed.
+Print Assumptions transition_amplitude_is_the_matrix_element.
+
+(* non-vacuity: <10| (2 Y1 + Z0 Z1) |00> = 2i and <11| Z0 Z1 |11> = 1 *)
+Example transition_amp_example :
+  let o := [([(1%nat, PY)], mkZw 2 0 0 0); ([(0%nat, PZ); (1%nat, PZ)], zw1)] in
+  tamp Zw zw0 zw1 (zw_opp zwi) zw_opp zw_add zw_mul o 2%N 0%N = mkZw 0 0 2 0
+  /\ tamp Zw zw0 zw1 (zw_opp zwi) zw_opp zw_add zw_mul o 3%N 3%N = zw1.
+Proof. vm_compute. split; reflexivity. Qed.
